@@ -63,6 +63,7 @@ type c11Config struct {
 	Suppress  []uint64 `json:"suppress"`
 	Randomize bool     `json:"randomize"`
 	SCIDLen   int      `json:"scid"` // -1: keep
+	VN        bool     `json:"vn,omitempty"` // the first Initial is answered with Version Negotiation: the ClientHello of the re-created connection is judged
 	Seed      uint64   `json:"seed"`
 }
 
@@ -75,7 +76,11 @@ func (c c11Config) id() string {
 	if c.List != nil {
 		ls = "[" + strings.Join(l, ",") + "]"
 	}
-	return fmt.Sprintf("%s list=%s suppress=%v randomize=%v scid=%d", c11Bases[c.Base].Name, ls, c.Suppress, c.Randomize, c.SCIDLen)
+	vn := ""
+	if c.VN {
+		vn = " after-version-negotiation"
+	}
+	return fmt.Sprintf("%s list=%s suppress=%v randomize=%v scid=%d%s", c11Bases[c.Base].Name, ls, c.Suppress, c.Randomize, c.SCIDLen, vn)
 }
 
 func c11QTP(s *quic.QUICSpec) *tls.QUICTransportParametersExtension {
@@ -212,7 +217,23 @@ func c11Run(t *testing.T, cfg c11Config) c11Outcome {
 		ok := sim.Run(t, "run", cfg.Seed*16+uint64(dial), func(t *testing.T) {
 			w := sim.NewWorld(nil)
 			d, _, _ := w.NewDialer(sim.ClientKind{Name: "spec", U: true, Spec: func() *quic.QUICSpec { return spec }})
-			fl = sim.CaptureFlight(w, d, &quic.Config{}, 300*time.Millisecond)
+			cconf := &quic.Config{}
+			if cfg.VN {
+				// an on-path box answers the first Initial with Version Negotiation (QUIC v2 only): the
+				// connection is re-created inside the same Dial and sends a second ClientHello
+				cconf.Versions = []quic.Version{quic.Version1, quic.Version2}
+				sent := false
+				w.Router.SetOnSend(func(ev sim.Event) {
+					if sent || ev.Dir != sim.C2S {
+						return
+					}
+					sent = true
+					if pk, _, err := wireobs.SplitDatagram(ev.Data); err == nil && len(pk) > 0 {
+						w.Router.Inject(ev.To, ev.From, wireobs.VersionNegotiation(pk[0].DCID, pk[0].SCID, []uint32{0x6b3343cf}), 0)
+					}
+				})
+			}
+			fl = sim.CaptureFlight(w, d, cconf, 300*time.Millisecond)
 			d.Close()
 			w.CloseEndpoints()
 		})
@@ -220,6 +241,20 @@ func c11Run(t *testing.T, cfg c11Config) c11Outcome {
 			if out.fail == nil {
 				out.fail = explore.Failf(key, "%s dial %d: %s", cfg.id(), dial, fmt.Sprintf(format, a...))
 			}
+		}
+		if ok && cfg.VN {
+			// the flight to judge is the first one sent with QUIC v2
+			var v2 []sim.Event
+			for _, e := range fl.Retrans {
+				if len(e.Data) > 5 && e.Data[0]&0x80 != 0 && e.Data[1] == 0x6b && e.Data[2] == 0x33 && (len(v2) == 0 || e.T == v2[0].T) {
+					v2 = append(v2, e)
+				}
+			}
+			if len(v2) == 0 {
+				fail("no-redial-after-version-negotiation", "no QUIC v2 Initial followed the Version Negotiation packet (dial error %v)", fl.DialErr)
+				break
+			}
+			fl.First = v2
 		}
 		if !ok {
 			fail("bubble-failed", "bubble did not terminate")
@@ -492,6 +527,7 @@ func TestVerifC11(t *testing.T) {
 			}
 			for _, sl := range []int{0, 8} {
 				cfgs = append(cfgs, c11Config{Base: b, Randomize: true, SCIDLen: sl, Seed: seed})
+				cfgs = append(cfgs, c11Config{Base: b, Randomize: sl%2 == 0, SCIDLen: sl, VN: true, Seed: seed})
 			}
 		}
 		// (b) generated parameter lists on two bases
